@@ -331,10 +331,10 @@ sp_ztrsv(char *uplo, char *trans, char *diag, SuperMatrix *L,
 
 		solve_ops += 8 * (nsupr - nsupc) * nsupc;
 
-		for (jcol = fsupc; jcol < L_FST_SUPC(k+1); jcol++) {
+		for (jcol = fsupc; jcol < L_LAST_SUPC(k); jcol++) {
 		    iptr = istart + nsupc;
 		    for (i = L_NZ_START(jcol) + nsupc; 
-				i < L_NZ_START(jcol+1); i++) {
+				i < L_NZ_END(jcol); i++) {
 			irow = L_SUB(iptr);
                         zz_conj(&temp, &Lval[i]);
 			zz_mult(&comp_zero, &x[irow], &temp);
@@ -363,13 +363,13 @@ sp_ztrsv(char *uplo, char *trans, char *diag, SuperMatrix *L,
 	    
 	    for (k = 0; k <= Lstore->nsuper; k++) {
 	    	fsupc = L_FST_SUPC(k);
-	    	nsupr = L_SUB_START(fsupc+1) - L_SUB_START(fsupc);
-	    	nsupc = L_FST_SUPC(k+1) - fsupc;
+	    	nsupr = L_SUB_END(fsupc) - L_SUB_START(fsupc);
+	    	nsupc = L_LAST_SUPC(k) - fsupc;
 	    	luptr = L_NZ_START(fsupc);
 
-		for (jcol = fsupc; jcol < L_FST_SUPC(k+1); jcol++) {
+		for (jcol = fsupc; jcol < L_LAST_SUPC(k); jcol++) {
 		    solve_ops += 8*(U_NZ_START(jcol+1) - U_NZ_START(jcol));
-		    for (i = U_NZ_START(jcol); i < U_NZ_START(jcol+1); i++) {
+		    for (i = U_NZ_START(jcol); i < U_NZ_END(jcol); i++) {
 			irow = U_SUB(i);
                         zz_conj(&temp, &Uval[i]);
 			zz_mult(&comp_zero, &x[irow], &temp);
